@@ -395,6 +395,9 @@ def run(ctx):
     # vector form PPSpline::bspldnev: the same derivatives the property speaks of, read through the AD path - at knots, at
     # the right end point, outside the domain (generators and comparison shared with C15; model: Props/C15.v C15_basis_*)
     c15.basis_stage(ctx, only=("evd", "vec"))
+    # ... and through the spline's own evaluation entry points on unit coefficients (ppdnev_single / _dual / _dual2 at every
+    # knot for every derivative order): the third way the basis derivatives are read
+    c15.unit_spline_stage(ctx)
     for k, v in stats.items():
         ctx.count("result:" + k, v)
     ctx.notes.append("results bit-identical: %d, differing in bits but within 1e-9: %d" % (stats["bit_equal"], stats["bit_differs"]))
@@ -405,7 +408,7 @@ def run(ctx):
 
 
 def replay(ctx, rp):
-    if "basis_op" in rp:
+    if "basis_op" in rp or "variant" in rp:      # stages shared with C15 (basis at dual abscissae, unit-coefficient splines)
         return c15.replay(ctx, rp)
     build_harness()
     build_coq(coq_targets_for("C14") + [RUN_TARGET])
